@@ -180,6 +180,8 @@ def run_one_shard(prop: str, tier: str, seed: int, shard: int, outdir: str, time
         cmd += ["--case", json.dumps(case)]
     try:
         p = subprocess.run(cmd, env=env, timeout=timeout, capture_output=True, text=True, cwd=outdir)
+        if os.environ.get("VERIF_DEBUG"):
+            sys.stderr.write(p.stderr[-6000:])
     except subprocess.TimeoutExpired:
         return {"status": "timeout", "shard": shard, "error": f"shard exceeded {timeout}s wall clock"}
     if not os.path.exists(out):
